@@ -228,6 +228,17 @@ func scenMalformed(rep *Report, tier string, seed int64) {
 			}
 			rep.Count("malformed:amount-above-int64")
 		}
+		// a validly signed zero-amount transfer whose input has no "type" key but an unknown key
+		// of compensating length
+		if i%3 == 1 {
+			if u := g.Users[(i+1)%len(g.Users)]; !(u.IsE && h <= s.Acts.RCDE) {
+				var o factom.FAAddress
+				r.Read(o[:])
+				content := fmt.Sprintf(`{"version":1,"transactions":[{"input":{"address":"%s","amount":0,"aaaaaaaaaaaaaaaaaaaaaaa":1},"transfers":[{"address":"%s","amount":0}]}]}`, u.FA().String(), o.String())
+				b.TX = append(b.TX, SignBatch([]byte(content), EntryTime(h).Unix(), u.Signer()))
+				rep.Count("malformed:input-without-type")
+			}
+		}
 		res, cont := stepExpectOK(rep, run, b, seed, "block with malformed entries", "liveness")
 		rep.Case(fmt.Sprintf("chains=%d|%s|opr%d|spr%d|tx%d", which, res.ImplClass, bucket(len(b.OPR)), bucket(len(b.SPR)), bucket(len(b.TX))), true)
 		rep.Count("result:" + res.ImplClass)
